@@ -101,7 +101,8 @@ def render(p, rng, types_of):
         if q["ext"]:
             lines.append("SUB P (%s%s AS %s)" % (nm(q["b"], "", rng), par, TN[q["t"]]))
         else:
-            lines.append("SUB P (%s%s)" % (nm(q["b"], q["t"], rng), par))
+            # a parameter written without a suffix has the default type of its first letter
+            lines.append("SUB P (%s%s)" % (nm(q["b"], "" if q.get("bare") else q["t"], rng), par))
     else:
         lines.append("SUB P")
     for s in p["sub"]:
@@ -281,6 +282,22 @@ def gen(tier, rng):
                             if o["k"] in ("let", "parg"):
                                 o["vt"] = t if (use_sfx in ("", t) and (ext or use_sfx == t or (use_sfx == "" and t == "S"))) else (use_sfx or "S")
                         progs.append(("param", pr))
+    # a parameter written WITHOUT a suffix: it has the default type of its letter (SINGLE, or what a DEFtype statement says), so
+    # inside the SUB the bare name and the name with that suffix are the caller's variable, other suffixes are other variables
+    for t in TYPES:
+        for use_sfx in SFX:
+            for act in ("print", "let", "parg"):
+                for dotted in (False, True):
+                    defs = [] if t == "S" else [{"t": t, "lo": 88, "hi": 88}]
+                    prm = {"b": "X", "t": t, "ext": False, "argb": "QA", "arr": False, "bare": True}
+                    main = [mk("let", "QA", sfx=t), {"k": "call"}, mk("print", "QA", sfx=t)]
+                    pr = build(defs, main, [mk(act, "X", sfx=use_sfx), mk("print", "X", sfx=t)])
+                    pr["params"] = [prm]
+                    pr["dotted"] = dotted
+                    for o in pr["main"] + pr["sub"]:
+                        if o["k"] in ("let", "parg"):
+                            o["vt"] = t if o["b"] == "QA" or use_sfx in ("", t) else use_sfx
+                    progs.append(("param-bare", pr))
     # REDIM with a bare name and with every suffix while a dynamic array of another (or the same) type exists, under every
     # default type of the letter: the bare name is the array of the default type
     for t in TYPES:
@@ -333,6 +350,13 @@ def gen(tier, rng):
                     if o["k"] == "let":
                         o["vt"] = pt
                 progs.append(("fname-param", pr))
+                # the same parameter written without a suffix (its type is the default type of the letter F)
+                if not ext:
+                    import copy
+                    pb = copy.deepcopy(pr)
+                    pb["defs"] = [] if pt == "S" else [{"t": pt, "lo": 70, "hi": 70}]
+                    pb["params"][0]["bare"] = True
+                    progs.append(("fname-param", pb))
     # a constant defined from another constant: the name on the right resolves in the scope of the definition
     for gsfx in ("", "$"):
         for local_first in (True, False):
@@ -407,7 +431,7 @@ def strip(p):
         return {k: v for k, v in s.items() if k != "vt"}
     return {"defs": p["defs"], "main": [st(s) for s in p["main"]], "sub": [st(s) for s in p["sub"]],
             "fn": p.get("fn", []),
-            "params": [{k: v for k, v in q.items() if k != "arr"} for q in p.get("params", [])]}
+            "params": [{k: v for k, v in q.items() if k not in ("arr", "bare")} for q in p.get("params", [])]}
 
 
 def run(tier, replay):
